@@ -19,7 +19,11 @@ class Sym(object):
 
 
 class SStr(Sym):
-    pass
+    __slots__ = ("z", "nonempty")
+
+    def __init__(self, z, nonempty=False):
+        self.z = z
+        self.nonempty = nonempty       # known (by construction) to be a non-empty string
 
 
 class SInt(Sym):
